@@ -75,12 +75,12 @@ def run(ctx):
     import queue_rules as Q
     er_fields = facts.adt(ER)["variants"][0]["fields"]
     RFIELD = [x["name"] for x in er_fields if x["ty"] == "R"]
-    SFIELD = [x["name"] for x in er_fields if x["ty"] == "usize"]
-    ctx.require(len(RFIELD) == 1 and len(SFIELD) == 1, "C09.2: inner-reader / remaining-size fields of EqualReader")
-    RFIELD, SFIELD = RFIELD[0], SFIELD[0]
+    SKEY = shared.size_key_of(facts, ER)
+    ctx.require(len(RFIELD) == 1 and SKEY is not None, "C09.2: inner-reader / remaining-size fields of EqualReader")
+    RFIELD = RFIELD[0]
     import drain_rules as DR
     DR.stops_rule(ctx, "C09.2", ER, "the length-limited body reader", emit=("repeats",))
-    DR.owed_rules(ctx, "C09.2", ER, (1, "*", "." + SFIELD))
+    DR.owed_rules(ctx, "C09.2", ER, (1, "*") + SKEY)
 
     # ---- C09.6 end-of-body latches: a draining destructor that can be switched off by the reader's own state relies on that state changing
     # only when the body really ended; a zero-length read returns 0 anywhere in the body and must not do it
